@@ -24,6 +24,7 @@ RULE = (
 ASSUMPTIONS = [
     "the network does not loop a stack's own multicast back to it; unicast goes to the stack owning the address, multicast to every other attached stack",
     "crash = the stack's transport becomes a black hole, it is detached from the network and its tasks are cancelled; restart = a fresh protocol object on the same address",
+    "a fault window ends when the last datagram it delayed has been delivered (reordering confined to a finite window)",
     "bound after the last disturbance: finite family max(TTLs) + max(cyclic, refresh) + slack; infinite family INITIAL_DELAY_MAX + 2 x cyclic + slack; slack = initial delay + request-response delay + collection timeout + repetition phase + 0.2 s (deliberately generous)",
     "infinite family (the statement's restriction): no fault windows, every crash is followed by a restart, and successive disturbances are at least one bound apart so that a (re)started peer has transmitted before it is disturbed again - otherwise per-channel reboot detection (C07) makes convergence impossible for any implementation",
 ]
@@ -136,6 +137,7 @@ class Net:
         self.faults = faults or [["ok"]]
         self.fi = 0
         self.stats = collections.Counter()
+        self.last_delayed_delivery = 0.0
 
     def send(self, sender, dest, data):
         if not sender.attached:
@@ -157,6 +159,7 @@ class Net:
                 continue
             for _ in range(2 if act[0] == "dup" else 1):
                 if act[0] == "delay":
+                    self.last_delayed_delivery = max(self.last_delayed_delivery, self.sim.now + act[1])
                     loop.call_later(act[1], self.deliver, s, data, sender.addr, mc)
                 else:
                     loop.call_soon(self.deliver, s, data, sender.addr, mc)
@@ -256,6 +259,9 @@ def run_case(case):
                 execute(-1, {"op": "restart" + role, "when": ["d", 0.5]})
         if net.stats["drop"] + net.stats["dup"] + net.stats["delay"]:
             feats["faulted-datagrams"] += 1
+        # the reordering window ends when its last delayed datagram has been delivered
+        if net.last_delayed_delivery > sim.now:
+            sim.run_until(net.last_delayed_delivery + 4 * RES)
         t_last = sim.now
 
         def verdict(tag):
